@@ -7,12 +7,12 @@ EXTENDS StreamContract, Json, IOUtils
 
 T == JsonDeserialize(IOEnv.TRACES)
 
-VARIABLES tid, l, envbad, stall, stall2
-vars == <<tid, l, envbad, stall, stall2, q, pend, acc, hold, oprev, obs>>
+VARIABLES tid, l, envbad, stall, stall2, stall3
+vars == <<tid, l, envbad, stall, stall2, stall3, q, pend, acc, hold, oprev, obs>>
 
 C == T[tid].cfg
 
-Init == /\ tid \in 1..Len(T) /\ l = 1 /\ envbad = FALSE /\ stall = 0 /\ stall2 = 0 /\ CInit
+Init == /\ tid \in 1..Len(T) /\ l = 1 /\ envbad = FALSE /\ stall = 0 /\ stall2 = 0 /\ stall3 = 0 /\ CInit
 
 Next ==
   /\ l <= Len(T[tid].ev)
@@ -23,6 +23,7 @@ Next ==
         /\ LET prog == IF C.kind = "drop" THEN obs'.sinkfire
                        ELSE IF C.kind = "block" THEN TRUE ELSE obs'.srcfire
            IN stall' = IF obs'.coop /\ ~prog THEN stall + 1 ELSE 0
+        /\ stall3' = IF obs'.coop /\ C.kind # "block" /\ ~obs'.sinkfire THEN stall3 + 1 ELSE 0
         /\ stall2' = IF obs'.rdy /\ Len(q') >= Need(C) /\ ~obs'.srcfire THEN stall2 + 1 ELSE 0
   /\ l' = l + 1 /\ tid' = tid
 
@@ -33,6 +34,7 @@ ValidHoldT == obs.okhold
 (* bounded form of Progress for replayed lassos and long runs: the element never lets   *)
 (* C.stallbound consecutive cooperative cycles pass without moving a token              *)
 BoundedProgress == stall < C.stallbound
+BoundedProgressSink == stall3 < C.stallbound
 (* bounded form of NothingLost: an owed item is delivered within C.stallbound cycles of a ready consumer *)
 BoundedDelivery == stall2 < C.stallbound
 =============================================================================
